@@ -81,6 +81,53 @@ func run(cfg lib.Cfg) error {
 		judge(sc, "corpus-cross-partition-switch")
 	}
 
+	// SHORT batches (delta < batch size, the normal case near the head) over several
+	// partitions: partitions are sized by ceil(batch/conc), not by ceil(delta/conc), so the
+	// partition boundaries do not sit where an even split of the loaded blocks would put
+	// them.  The reorg becomes visible between two partition fetches, at every boundary.
+	for i, c := range []struct {
+		shape                   string
+		batch, conc, pre, delta int // pre: blocks indexed before (one step), delta: blocks of the short batch
+	}{
+		{"log", 8, 2, 0, 6},    // partitions (1,4)(5,2)
+		{"tx", 9, 3, 0, 5},     // (1,3)(4,2)
+		{"log", 10, 2, 10, 7},  // position 10, then (11,5)(16,2)
+		{"trace", 12, 4, 0, 7}, // (1,3)(4,3)(7,1)
+		{"tx", 6, 2, 6, 5},     // (7,3)(10,2)
+		{"log", 7, 3, 0, 4},    // (1,3)(4,1)
+	} {
+		part := (c.batch + c.conc - 1) / c.conc
+		nparts := (c.delta + part - 1) / part
+		for b := 1; b < nparts; b++ { // the switch lands before partition b
+			head := c.pre + c.delta
+			sc := world(fmt.Sprintf("corpus-short-batch-%d-b%dc%d-delta%d-boundary%d", i, c.batch, c.conc, c.delta, b), []string{c.shape}, c.batch, c.conc, c.pre, uint64(71+i))
+			if c.pre > 0 {
+				sc.Acts = append(sc.Acts, rounds(1, 1)...)
+			} else {
+				sc.Head = 1 // block 0 and 1 exist; the chain grows to the short batch below
+			}
+			grow := head - sc.Head
+			sc.Acts = append(sc.Acts, ts.Act{Do: "grow", K: grow})
+			if c.pre == 0 {
+				head = sc.Head + grow
+			}
+			// the replacement forks inside the partition BEFORE the boundary, so that the first
+			// block of the next partition does not link to what was served before
+			first := c.pre + 1
+			fork := first + (b-1)*part + 1
+			if part == 1 {
+				fork = first + (b-1)*part
+			}
+			sc.Acts = append(sc.Acts, ts.Act{Do: "makever", Fork: uint64(fork), Len: head - fork + 3})
+			for k := b; k < nparts; k++ {
+				sc.Acts = append(sc.Acts, ts.Act{Do: "rpcver", Tid: 1, Call: fmt.Sprintf("get@%d#0", k*part), Ver: 3})
+			}
+			sc.Acts = append(sc.Acts, ts.Act{Do: "step", Tid: 1}, ts.Act{Do: "setver", Ver: 3})
+			sc.Acts = append(sc.Acts, rounds(1, (head+3)/c.batch+5)...)
+			judge(sc, "corpus-short-batch-partition-switch")
+		}
+	}
+
 	// restarts that CHANGE batch size and concurrency between the moment a position is
 	// written and the reorg that unwinds it ("whatever batch size was in effect when the
 	// orphaned blocks were written"): larger -> smaller, smaller -> larger, -> 1
